@@ -25,6 +25,9 @@ GUARDED = ("ioTick", "ioThreadRunning", "curSize", "numDiscarded", "queues")
 
 
 def run(ctx):
+    # locals / parameters the rules below refer to by name (a rename makes the analysis 'broken', never a violation)
+    ctx.anchor(ctx.fn1('Oomd::Log::debugLog'), 'buf', 'q')
+    ctx.anchor(ctx.fn1('Oomd::Log::ioThread'), 'q', 'numDiscarded', 'io_thread_running', 'debug_sink')
     P, cg = ctx.prog, ctx.cg
     LA = LockAnalysis(P, cg)
     dbg = ctx.fn1("Oomd::Log::debugLog")
